@@ -348,6 +348,7 @@ def summarise(run, dom, body, where='', collect=False, parallel=None):
     saved_env = run.frames[-1].env
     run.frames[-1].env = envi
     try:
+        base = len(sti.pc)      # facts assumed from here on are per-iteration facts (generalised over the index)
         if inv is not None:
             inv.init(run, st0, env0)
             inv.assume_at(run, sti, envi)
@@ -394,7 +395,6 @@ def summarise(run, dom, body, where='', collect=False, parallel=None):
         if c is not None and len(vs) == 1:
             sel = gen(c)[vs[0]]
             lifted_defs.append(z3.ForAll([i_] + vs, sel == gen(bd), patterns=[sel]))
-    base = len(sti.pc)
     normal = [e for e in ends if e[0] == 'ok']
     raising = [e for e in ends if e[0] == 'raise']
     rng = z3.And(i_ >= 0, i_ < n)
